@@ -477,6 +477,16 @@ def CallDef (fg bg : UInt8) : Call → Prop
   | .write _ f b _ _ => f = fg ∧ b = bg
   | _ => True
 
+/-- the shape of the terminal's call log (newest first): single `Write`s inside the grid, and
+`Scroll(up, 1)` always immediately followed by the `Fill` of the whole last line — the vacated
+line of a scroll is repainted before anything else happens -/
+inductive Paired (w h : Nat) : List Call → Prop
+  | nil : Paired w h []
+  | write {ch fg bg : UInt8} {x y : Nat} {rest : List Call} :
+      (1 ≤ x ∧ x ≤ w ∧ 1 ≤ y ∧ y ≤ h) → Paired w h rest → Paired w h (.write ch fg bg x y :: rest)
+  | pair {fg bg : UInt8} {rest : List Call} :
+      Paired w h rest → Paired w h (.fill 1 h w 1 fg bg :: .scroll Firefly.Gen.C17.scrollDirUp 1 :: rest)
+
 /-- `K0` is the console before the history; `t.out` is every call made since.  The console has
 the terminal's geometry, nothing was drawn outside the grid, every call was inside the grid, and
 while the terminal is Active the console shows the viewport. -/
@@ -488,6 +498,8 @@ structure Sync (K0 : Console) (t : VT) : Prop where
   ok : ∀ c ∈ t.out, CallOk t.viewportWidth t.viewportHeight c
   /-- every `Write` was in the console's default colours -/
   cols : ∀ c ∈ t.out, CallDef t.defaultFg t.defaultBg c
+  /-- a `Scroll` is always followed at once by the `Fill` of the vacated line -/
+  paired : Paired t.viewportWidth t.viewportHeight t.out
   shows : t.active = true → ∀ r c, r < t.viewportHeight → c < t.viewportWidth →
     (K0.applyLog t.out).at r c = vcell t r c
 
@@ -501,7 +513,7 @@ theorem Sync.frame {K0 : Console} {t t' : VT} (s : Sync K0 t) (ho : t'.out = t.o
     (hv : ∀ r c, r < t.viewportHeight → c < t.viewportWidth → vcell t' r c = vcell t r c)
     (hd : t'.defaultFg = t.defaultFg ∧ t'.defaultBg = t.defaultBg := by exact ⟨rfl, rfl⟩) : Sync K0 t' := by
   refine ⟨by rw [ho, hw]; exact s.w, by rw [ho, hh]; exact s.h, by rw [ho]; exact s.wf,
-    by rw [ho]; exact s.outside, by rw [ho, hw, hh]; exact s.ok, by rw [ho, hd.1, hd.2]; exact s.cols, ?_⟩
+    by rw [ho]; exact s.outside, by rw [ho, hw, hh]; exact s.ok, by rw [ho, hd.1, hd.2]; exact s.cols, by rw [ho, hw, hh]; exact s.paired, ?_⟩
   intro a r c hr hc
   rw [hh] at hr; rw [hw] at hc
   rw [ho, hv r c hr hc]
@@ -524,7 +536,7 @@ theorem Sync.write {K0 : Console} {t t' : VT} (s : Sync K0 t) {b fg bg : UInt8} 
     obtain ⟨w1, w2, w3, w4, w5⟩ := write_in s.wf b fg bg hxk hyk
     have e : K0.applyLog t'.out = (K0.applyLog t.out).write b fg bg cx cy := by rw [ho']; rfl
     refine ⟨by rw [e, w1, hw]; exact s.w, by rw [e, w2, hh]; exact s.h, by rw [e]; exact w3,
-      by rw [e, w4]; exact s.outside, ?_, ?_, ?_⟩
+      by rw [e, w4]; exact s.outside, ?_, ?_, by rw [ho', hw, hh]; exact Paired.write ⟨hx.1, hx.2, hy.1, hy.2⟩ s.paired, ?_⟩
     · intro c hc
       rw [ho'] at hc
       rw [hw, hh]
@@ -543,7 +555,7 @@ theorem Sync.write {K0 : Console} {t t' : VT} (s : Sync K0 t) {b fg bg : UInt8} 
   · have a' : t.active = false := by simpa using a
     have ho' : t'.out = t.out := by simpa [a'] using ho
     refine ⟨by rw [ho', hw]; exact s.w, by rw [ho', hh]; exact s.h, by rw [ho']; exact s.wf,
-      by rw [ho']; exact s.outside, by rw [ho', hw, hh]; exact s.ok, by rw [ho', hd.1, hd.2]; exact s.cols, ?_⟩
+      by rw [ho']; exact s.outside, by rw [ho', hw, hh]; exact s.ok, by rw [ho', hd.1, hd.2]; exact s.cols, by rw [ho', hw, hh]; exact s.paired, ?_⟩
     intro h; rw [ha, a'] at h; cases h
 
 /-- the viewport moved up by one line with a blank last line and, if Active, the console was
@@ -571,7 +583,7 @@ theorem Sync.scroll {K0 : Console} {t t' : VT} (s : Sync K0 t) {fg bg : UInt8}
       rw [ho']
       simp [Console.applyLog, Console.apply]
     refine ⟨by rw [e, f1, s1, hw]; exact s.w, by rw [e, f2, s2, hh]; exact s.h, by rw [e]; exact f3,
-      by rw [e, f4, s4]; exact s.outside, ?_, ?_, ?_⟩
+      by rw [e, f4, s4]; exact s.outside, ?_, ?_, by rw [ho', hw, hh]; exact Paired.pair s.paired, ?_⟩
     · intro c hc
       rw [ho'] at hc
       rw [hw, hh]
@@ -604,7 +616,7 @@ theorem Sync.scroll {K0 : Console} {t t' : VT} (s : Sync K0 t) {fg bg : UInt8}
   · have a' : t.active = false := by simpa using a
     have ho' : t'.out = t.out := by simpa [a'] using ho
     refine ⟨by rw [ho', hw]; exact s.w, by rw [ho', hh]; exact s.h, by rw [ho']; exact s.wf,
-      by rw [ho']; exact s.outside, by rw [ho', hw, hh]; exact s.ok, by rw [ho', hd.1, hd.2]; exact s.cols, ?_⟩
+      by rw [ho']; exact s.outside, by rw [ho', hw, hh]; exact s.ok, by rw [ho', hd.1, hd.2]; exact s.cols, by rw [ho', hw, hh]; exact s.paired, ?_⟩
     intro h; rw [ha, a'] at h; cases h
 
 @[simp] theorem emit_attached (t : VT) (cs) : (emit t cs).attached = t.attached := by unfold emit; split <;> rfl
@@ -1174,6 +1186,29 @@ theorem allRows_mem (d : Array UInt8) (w vy : Nat) : ∀ (n y : Nat) (out : List
       obtain ⟨y', k, h1, h2, h3, h4⟩ := h
       exact Or.inr ⟨y', k, by omega, by omega, h3, h4⟩
 
+theorem paired_writes {w h : Nat} (d : Array UInt8) (vy y : Nat) (hy : 1 ≤ y ∧ y ≤ h) {out : List Call}
+    (p : Paired w h out) : ∀ m, m ≤ w → Paired w h (((List.range m).reverse.map fun k =>
+      Call.write (cellAt d w (y - 1 + vy) k).ch (cellAt d w (y - 1 + vy) k).fg (cellAt d w (y - 1 + vy) k).bg (k + 1) y)
+        ++ out) := by
+  intro m
+  induction m with
+  | zero => intro _; simpa using p
+  | succ m ih =>
+    intro hm
+    simp only [List.range_succ, List.reverse_append, List.reverse_singleton, List.singleton_append,
+      List.map_cons, List.cons_append]
+    exact Paired.write ⟨by omega, by omega, hy.1, hy.2⟩ (ih (by omega))
+
+theorem allRows_paired (d : Array UInt8) {w vy h : Nat} : ∀ (n y : Nat) (out : List Call), 1 ≤ y → y + n ≤ h + 1 →
+    Paired w h out → Paired w h (allRows d w vy n y out) := by
+  intro n
+  induction n with
+  | zero => intro y out _ _ p; exact p
+  | succ n ih =>
+    intro y out hy hn p
+    simp only [allRows]
+    exact ih (y + 1) _ (by omega) (by omega) (paired_writes d vy y ⟨hy, by omega⟩ p w (Nat.le_refl w))
+
 /-- the whole redraw: afterwards lines `y-1 …` show the viewport, whatever was there before -/
 theorem allRows_apply (K0 : Console) (d : Array UInt8) {w vy : Nat} : ∀ (n y : Nat) (out : List Call),
     WF (K0.applyLog out) → (K0.applyLog out).w = w → 1 ≤ y → y + n = (K0.applyLog out).h + 1 →
@@ -1252,7 +1287,8 @@ theorem setState_spec {t : VT} (i : Inv t) (a : Bool) :
       · intro K0 s
         obtain ⟨b1, b2, b3, b4, b5, b6⟩ := allRows_apply K0 t.data (vy := t.viewportY) t.viewportHeight 1 t.out
           s.wf s.w (Nat.le_refl 1) (by rw [s.h]; omega)
-        refine ⟨b1, b2.trans s.h, b3, b4.trans s.outside, ?_, ?_, ?_⟩
+        refine ⟨b1, b2.trans s.h, b3, b4.trans s.outside, ?_, ?_,
+          allRows_paired t.data (vy := t.viewportY) t.viewportHeight 1 t.out (Nat.le_refl 1) (Nat.le_of_eq (Nat.add_comm 1 _)) s.paired, ?_⟩
         · intro c hc
           cases b5 c hc with
           | inl h => exact s.ok c h
@@ -1412,7 +1448,7 @@ theorem Sync.cells_eq {K0 : Console} {t : VT} (s : Sync K0 t) (g : Geo t) (a : t
 /-- a freshly attached (Inactive, nothing drawn) terminal is in sync with any console of its shape -/
 theorem Sync.init {K0 : Console} {t : VT} (wf : WF K0) (hw : K0.w = t.viewportWidth) (hh : K0.h = t.viewportHeight)
     (ho : t.out = []) (ha : t.active = false) : Sync K0 t := by
-  refine ⟨by rw [ho]; exact hw, by rw [ho]; exact hh, by rw [ho]; exact wf, by rw [ho]; rfl, by rw [ho]; simp, by rw [ho]; simp, ?_⟩
+  refine ⟨by rw [ho]; exact hw, by rw [ho]; exact hh, by rw [ho]; exact wf, by rw [ho]; rfl, by rw [ho]; simp, by rw [ho]; simp, by rw [ho]; exact Paired.nil, ?_⟩
   intro h; rw [ha] at h; cases h
 
 /-! ### the reference terminal keeps its configuration -/
